@@ -264,8 +264,25 @@ class SimBackend(object):
         return 10 ** self.drng.uniform(-5, -2)
 
     def _assign(self, lp, C, point):
-        lp.assignVarsVals(dict((v.name, float(point[i]))
-                               for i, v in enumerate(C.vs)))
+        vals = dict((v.name, float(point[i])) for i, v in enumerate(C.vs))
+        if self.cfg.get('value_noise'):
+            # inside any MILP solver's contract (integrality tolerance 1e-6):
+            # binary variables at one may come back as 0.9999999 or
+            # 1.0000001, zeros as -0.0; general integers stay exact
+            # Only the student-project decision variables are touched: an
+            # objective variable returned as 2.9999999 would make the
+            # repository's freeze constraint cut off the optimum, which no
+            # listed property covers (DESIGN.md 2.3, recorded assumption).
+            r = random.Random(self.cfg['value_noise'] + self.round)
+            projset = set(C.proj)
+            for i, v in enumerate(C.vs):
+                if i in projset and C.lo[i] == 0 and C.hi[i] == 1:
+                    if point[i] == 1:
+                        vals[v.name] = r.choice([1.0, 0.9999999, 1.0000001,
+                                                 0.99999999])
+                    else:
+                        vals[v.name] = r.choice([0.0, -0.0])
+        lp.assignVarsVals(vals)
 
     def _to_M(self, proj, pairs, n1):
         """Projection tuple -> assignment tuple; a student holding two
